@@ -14,6 +14,7 @@ import (
 	"hash/fnv"
 	"os"
 	"regexp"
+	"runtime"
 	"runtime/debug"
 	"sort"
 	"strconv"
@@ -246,10 +247,43 @@ func runCase[C any](t *testing.T, p *Prop[C], c C) (res Result) {
 	if !p.Bubble {
 		return p.Run(c)
 	}
+	// When goroutines started by the case are still (durably) blocked after its
+	// root function returned, synctest.Test panics with "deadlock: ...": that is
+	// a verdict ("some goroutine can never finish"), not a harness failure.
+	defer func() {
+		if r := recover(); r != nil {
+			msg := fmt.Sprint(r)
+			if !strings.HasPrefix(msg, "deadlock:") {
+				panic(r)
+			}
+			res.Violations = append(res.Violations, V("goroutines-blocked-forever", "%s\n%s", msg, blockedGoroutines()))
+		}
+	}()
 	synctest.Test(t, func(t *testing.T) {
 		res = p.Run(c)
 	})
 	return res
+}
+
+// blockedGoroutines lists goroutines that have a frame of the code under test.
+func blockedGoroutines() string {
+	buf := make([]byte, 1<<20)
+	n := runtime.Stack(buf, true)
+	var out []string
+	for _, g := range strings.Split(string(buf[:n]), "\n\n") {
+		if !strings.Contains(g, "github.com/energomonitor/bisquitt/") || !strings.Contains(g, "synctest bubble") {
+			continue
+		}
+		lines := strings.Split(g, "\n")
+		if len(lines) > 9 {
+			lines = lines[:9]
+		}
+		out = append(out, strings.Join(lines, "\n"))
+		if len(out) >= 6 {
+			break
+		}
+	}
+	return strings.Join(out, "\n\n")
 }
 
 // Check runs the property. In replay mode it runs exactly the given cases.
